@@ -315,22 +315,34 @@ package mcap
 /*@ func (*indexedMessageIterator).parseSummarySection$1
     safety C10
     requires it != nil && 0 <= i && i < len(it.chunkIndexes) && 0 <= j && j < len(it.chunkIndexes) && it.chunkIndexes[i] != nil && it.chunkIndexes[j] != nil
+    ensures [file-order-key] {C03} result == (it.chunkIndexes[i].ChunkStartOffset < it.chunkIndexes[j].ChunkStartOffset)
 @*/
 /*@ func (*indexedMessageIterator).parseSummarySection$2
     safety C10
     requires it != nil && 0 <= i && i < len(it.chunkIndexes) && 0 <= j && j < len(it.chunkIndexes) && it.chunkIndexes[i] != nil && it.chunkIndexes[j] != nil
+    ensures [log-time-key-then-offset] {C03} result == ite(it.chunkIndexes[i].MessageStartTime == it.chunkIndexes[j].MessageStartTime, it.chunkIndexes[i].ChunkStartOffset < it.chunkIndexes[j].ChunkStartOffset, it.chunkIndexes[i].MessageStartTime < it.chunkIndexes[j].MessageStartTime)
 @*/
 /*@ func (*indexedMessageIterator).parseSummarySection$3
     safety C10
     requires it != nil && 0 <= i && i < len(it.chunkIndexes) && 0 <= j && j < len(it.chunkIndexes) && it.chunkIndexes[i] != nil && it.chunkIndexes[j] != nil
+    ensures [reverse-key-then-offset] {C03} result == ite(it.chunkIndexes[i].MessageEndTime == it.chunkIndexes[j].MessageEndTime, it.chunkIndexes[i].ChunkStartOffset > it.chunkIndexes[j].ChunkStartOffset, it.chunkIndexes[i].MessageEndTime > it.chunkIndexes[j].MessageEndTime)
 @*/
 /*@ func (*indexedMessageIterator).loadChunk$1
     safety C10
     requires 0 <= i && i < len(unreadMessageIndexes) && 0 <= j && j < len(unreadMessageIndexes)
+    ensures [ascending-by-log-time] {C03} result == (unreadMessageIndexes[i].timestamp < unreadMessageIndexes[j].timestamp)
 @*/
 /*@ func (*indexedMessageIterator).loadChunk$2
     safety C10
     requires 0 <= i && i < len(unreadMessageIndexes) && 0 <= j && j < len(unreadMessageIndexes)
+    ensures [descending-by-log-time] {C03} result == (unreadMessageIndexes[i].timestamp > unreadMessageIndexes[j].timestamp)
+@*/
+
+/*@ spec queueSorted(it) = (it.order == LogTimeOrder ==> forall(i, it.curMessageIndex, len(it.messageIndexes), forall(j, i + 1, len(it.messageIndexes), it.messageIndexes[i].timestamp <= it.messageIndexes[j].timestamp)))
+        && (it.order == ReverseLogTimeOrder ==> forall(i, it.curMessageIndex, len(it.messageIndexes), forall(j, i + 1, len(it.messageIndexes), it.messageIndexes[i].timestamp >= it.messageIndexes[j].timestamp)))
+    spec chunksSorted(it) = (it.order == LogTimeOrder ==> forall(i, 0, len(it.chunkIndexes), forall(j, i + 1, len(it.chunkIndexes), it.chunkIndexes[i].MessageStartTime <= it.chunkIndexes[j].MessageStartTime)))
+        && (it.order == ReverseLogTimeOrder ==> forall(i, 0, len(it.chunkIndexes), forall(j, i + 1, len(it.chunkIndexes), it.chunkIndexes[i].MessageEndTime >= it.chunkIndexes[j].MessageEndTime)))
+        && (it.order == FileOrder ==> forall(i, 0, len(it.chunkIndexes), forall(j, i + 1, len(it.chunkIndexes), it.chunkIndexes[i].ChunkStartOffset <= it.chunkIndexes[j].ChunkStartOffset)))
 @*/
 
 /*@ spec queueInWindow(it) = forall(k, it.curMessageIndex, len(it.messageIndexes), inWindow(it.start, it.end, it.messageIndexes[k].timestamp))
@@ -357,6 +369,9 @@ package mcap
     ensures err == nil ==> it.fileSize >= 28 && it.hasReadSummarySection
     ensures err != nil ==> !it.hasReadSummarySection
     loop 1 invariant wfIndexed(it) && it.fileSize >= 28 && wfLexer(lexer)
+    ensures [chunk-list-ordered-for-the-read-order] {C03} err == nil && old(len(it.chunkIndexes)) == 0 ==> chunksSorted(it)
+    ensures [queue-untouched] {C03} old(queueSorted(it)) ==> queueSorted(it)
+    loop 1 invariant [queue-untouched] {C03} it.order == old(it.order) && (old(queueSorted(it)) ==> queueSorted(it))
 @*/
 
 /*@ func (*indexedMessageIterator).loadChunk
@@ -371,6 +386,16 @@ package mcap
         ==> len(it.messageIndexes) == athead(len(it.messageIndexes)) + 1 && it.messageIndexes[len(it.messageIndexes)-1].timestamp == athead(le64at(chunkSlot.buf, offset + 15)) && it.messageIndexes[len(it.messageIndexes)-1].offset == athead(offset)
     loop 2 backedge [none-extra] {C04} len(it.messageIndexes) == athead(len(it.messageIndexes)) || (len(it.messageIndexes) == athead(len(it.messageIndexes)) + 1 && op == OpMessage)
     loop 2 invariant len(it.messageIndexes) >= startIdx
+    requires [queue-sorted] {C03} queueSorted(it)
+    ensures [queue-sorted] {C03} err == nil ==> queueSorted(it)
+    ensures [chunk-list-untouched] {C03} it.chunkIndexes == old(it.chunkIndexes) && it.curChunkIndex == old(it.curChunkIndex) && it.order == old(it.order)
+    ensures [pending-never-shrinks] {C03} err == nil ==> len(it.messageIndexes) - it.curMessageIndex >= old(len(it.messageIndexes) - it.curMessageIndex)
+    loop 2 invariant [fresh-queue-ascending-while-no-sort-needed] {C03} it.order == old(it.order) && (!sortingRequired ==> it.curMessageIndex == 0 && startIdx == 0
+        && forall(i, 0, len(it.messageIndexes), it.messageIndexes[i].timestamp <= maxLogTime && forall(j, i + 1, len(it.messageIndexes), it.messageIndexes[i].timestamp <= it.messageIndexes[j].timestamp)))
+    requires [chunk-list-sorted] {C03} chunksSorted(it)
+    ensures [chunk-list-sorted] {C03} chunksSorted(it)
+    loop 1 invariant [chunk-list-sorted] {C03} chunksSorted(it) && it.order == old(it.order)
+    loop 2 invariant [chunk-list-sorted] {C03} chunksSorted(it)
 @*/
 
 /*@ func (*indexedMessageIterator).NextInto
@@ -382,6 +407,16 @@ package mcap
     ensures [queue-in-window] {C04} queueInWindow(it)
     loop 1 invariant wfIndexed(it) && msg != nil && it.fileSize >= 28 && queueInWindow(it)
     loop 2 invariant wfIndexed(it) && msg != nil && it.fileSize >= 28 && queueInWindow(it)
+    requires [ordered-state] {C03} queueSorted(it) && chunksSorted(it) && (!it.hasReadSummarySection ==> len(it.chunkIndexes) == 0)
+    ensures [ordered-state] {C03} r3 == nil ==> queueSorted(it) && chunksSorted(it)
+    loop 1 invariant [ordered-state] {C03} queueSorted(it) && chunksSorted(it)
+    loop 2 invariant [ordered-state] {C03} queueSorted(it) && chunksSorted(it)
+    call PopulateFrom#1 assert [yield-is-minimum-of-pending] {C03} it.order == LogTimeOrder ==> forall(k, it.curMessageIndex, len(it.messageIndexes), messageIndex.timestamp <= it.messageIndexes[k].timestamp)
+    call PopulateFrom#1 assert [yield-is-maximum-of-pending] {C03} it.order == ReverseLogTimeOrder ==> forall(k, it.curMessageIndex, len(it.messageIndexes), messageIndex.timestamp >= it.messageIndexes[k].timestamp)
+    call PopulateFrom#1 assert [no-unloaded-chunk-starts-before-the-yield] {C03} it.order == LogTimeOrder ==> forall(c, it.curChunkIndex, len(it.chunkIndexes), it.chunkIndexes[c].MessageStartTime >= messageIndex.timestamp)
+    call PopulateFrom#1 assert [no-unloaded-chunk-ends-after-the-yield] {C03} it.order == ReverseLogTimeOrder ==> forall(c, it.curChunkIndex, len(it.chunkIndexes), it.chunkIndexes[c].MessageEndTime <= messageIndex.timestamp)
+    call PopulateFrom#1 assert [yield-is-queue-head] {C03} messageIndex.timestamp == it.messageIndexes[it.curMessageIndex].timestamp && messageIndex.offset == it.messageIndexes[it.curMessageIndex].offset && messageIndex.chunkSlotIndex == it.messageIndexes[it.curMessageIndex].chunkSlotIndex
+    call Get#1 assert [cursor-advances-by-one-per-yield] {C03} it.curMessageIndex == athead(it.curMessageIndex) + 1 && len(it.messageIndexes) == athead(len(it.messageIndexes))
 @*/
 
 /*@ func (*indexedMessageIterator).Next
@@ -391,6 +426,8 @@ package mcap
     touches it
     ensures wfIndexed(it) && (it.hasReadSummarySection ==> it.fileSize >= 28)
     ensures queueInWindow(it)
+    requires [ordered-state] {C03} queueSorted(it) && chunksSorted(it) && (!it.hasReadSummarySection ==> len(it.chunkIndexes) == 0)
+    ensures [ordered-state] {C03} r3 == nil ==> queueSorted(it) && chunksSorted(it)
 @*/
 
 // ---------------------------------------------------------------------------------------------
